@@ -44,7 +44,7 @@ def load_codes():
 
 
 class Cand:
-    __slots__ = ("bytes", "modrm_at", "disp_at", "disp_size", "moffs_at")
+    __slots__ = ("bytes", "modrm_at", "disp_at", "disp_size", "moffs_at", "recipe")
 
     def __init__(self):
         self.bytes = b""
@@ -52,6 +52,7 @@ class Cand:
         self.disp_at = None
         self.disp_size = 0
         self.moffs_at = None
+        self.recipe = None
 
 
 STACK_RSP_TEMPLATES = [
@@ -60,11 +61,27 @@ STACK_RSP_TEMPLATES = [
 ]
 
 
-def gen_candidate(rng, opcode=None, two_byte=None, force=None):
-    """prefixes, opcode, ModRM [SIB] [disp], random immediate tail (up to 15 bytes)"""
+def gen_candidate(rng, opcode=None, two_byte=None, force=None, recipe=None):
+    """prefixes, opcode, ModRM [SIB] [disp], random immediate tail (up to 15 bytes).
+    recipe = (has66, rex_w or None for "no REX", two_byte, opcode, modrm_reg or None): the fields that select
+    the iced Code; everything else (mod, rm, SIB, displacement, immediates, REX.RXB, other prefixes) stays random"""
     c = Cand()
     b = bytearray()
     r = rng.random()
+    if recipe is not None:
+        has66, rexw, two_byte, opcode, mreg = recipe
+        if rng.random() < 0.10:
+            b.append(rng.choice([0x64, 0x65]))
+        if rng.random() < 0.10:
+            b.append(0x67)
+        if has66:
+            b.append(0x66)
+        if rexw is not None:
+            b.append(0x40 | (8 if rexw else 0) | rng.randrange(8))
+        if two_byte:
+            b.append(0x0F)
+        b.append(opcode)
+        return _finish_candidate(rng, c, b, two_byte, opcode, force, mreg)
     if force == "stackrsp":
         t = rng.choice(STACK_RSP_TEMPLATES)
         if "%" in t:
@@ -91,13 +108,17 @@ def gen_candidate(rng, opcode=None, two_byte=None, force=None):
     if two_byte:
         b.append(0x0F)
     b.append(opcode)
+    return _finish_candidate(rng, c, b, two_byte, opcode, force, None)
+
+
+def _finish_candidate(rng, c, b, two_byte, opcode, force, mreg):
     if not two_byte and 0xA0 <= opcode <= 0xA3:
         c.moffs_at = len(b)
         b += rng.randbytes(8)
     else:
         c.modrm_at = len(b)
         mod = rng.choice([0, 0, 1, 2, 3, 3, 3])
-        reg = rng.randrange(8)
+        reg = rng.randrange(8) if mreg is None else mreg
         rm = rng.choice([0, 1, 2, 3, 4, 4, 5, 5, 6, 7])
         if force == "a32":
             mod = rng.choice([0, 1, 1, 2, 2])
@@ -138,6 +159,25 @@ def gen_candidate(rng, opcode=None, two_byte=None, force=None):
                 tail[k] = fill
     b += tail
     c.bytes = bytes(b[:15])
+    # what selected the Code (for build_recipes)
+    k = 0
+    has66 = False
+    rexw = None
+    while k < len(b) and b[k] in (0x64, 0x65, 0x67, 0x66):
+        has66 = has66 or b[k] == 0x66
+        k += 1
+    if k < len(b) and 0x40 <= b[k] <= 0x4f:
+        rexw = bool(b[k] & 8)
+        k += 1
+    tb = k < len(b) and b[k] == 0x0F
+    if tb:
+        k += 1
+    if k < len(b):
+        op = b[k]
+        mr = ((b[c.modrm_at] >> 3) & 7) if c.modrm_at is not None else None
+        prefix_like = (not tb) and (0x40 <= op <= 0x4f or op in (0x26, 0x2e, 0x36, 0x3e, 0x64, 0x65, 0x66, 0x67, 0xf0, 0xf2, 0xf3))
+        if not prefix_like:
+            c.recipe = (has66, rexw, tb, op, mr)
     return c
 
 
@@ -466,6 +506,47 @@ def hw_line(cid, case):
     return " ".join(t)
 
 
+_RECIPES = None
+
+
+def build_recipes(axh):
+    """code -> list of recipes, from one large random sample (cached in build/recipes.json)"""
+    global _RECIPES
+    if _RECIPES is not None:
+        return _RECIPES
+    here = os.path.dirname(os.path.abspath(__file__))
+    cache = os.path.join(os.path.dirname(here), "build", "recipes.json")
+    table = load_codes()
+    want = set(table["codes"]) - set(table["stubs"])
+    key = "%d:%d" % (len(table["codes"]), len(table["stubs"]))
+    if os.path.exists(cache):
+        try:
+            d = json.load(open(cache))
+            if d.get("key") == key:
+                _RECIPES = {k: [tuple(x) for x in v] for k, v in d["recipes"].items()}
+                return _RECIPES
+        except Exception:
+            pass
+    rng = random.Random(0xec1de)
+    rec = {}
+    rip = CODE_BASE + 0x100
+    for _ in range(14):
+        cands = [gen_candidate(rng) for _ in range(40000)]
+        for c, toks in zip(cands, decode_bulk(axh, cands, rip)):
+            d = dec_dict(toks)
+            if d is None or d["code"] not in want or c.recipe is None:
+                continue
+            lst = rec.setdefault(d["code"], [])
+            if c.recipe not in lst and len(lst) < 6:
+                lst.append(c.recipe)
+        if all(len(rec.get(k, [])) >= 2 for k in want):
+            break
+    os.makedirs(os.path.dirname(cache), exist_ok=True)
+    json.dump(dict(key=key, recipes={k: [list(x) for x in v] for k, v in rec.items()}), open(cache, "w"))
+    _RECIPES = rec
+    return rec
+
+
 def generate(axh, seed, n, codes_filter=None, per_code_cap=None):
     """returns list of (case dict); tries to spread over the dispatched codes"""
     rng = random.Random(seed)
@@ -480,42 +561,58 @@ def generate(axh, seed, n, codes_filter=None, per_code_cap=None):
     while len(out) < n and rounds < 60:
         rounds += 1
         pending = []
-        cands = [gen_candidate(rng) for _ in range(max(4000, n))]
+        cands = [gen_candidate(rng) for _ in range(max(2000, n // 2))]
+        # every dispatched form gets its share: pick the Code first, then one of its recipes
+        recs = build_recipes(axh)
+        keys = sorted(k for k in recs if not codes_filter or k in codes_filter)
+        if keys:
+            for _ in range(max(3000, n)):
+                k = rng.choice(keys)
+                cands.append(gen_candidate(rng, recipe=rng.choice(recs[k])))
         cands += [gen_candidate(rng, force="a32") for _ in range(max(800, n // 5))]
         cands += [gen_candidate(rng, force="rsp") for _ in range(max(400, n // 10))]
         cands += [gen_candidate(rng, force="stackrsp") for _ in range(max(200, n // 20))]
         rng.shuffle(cands)
         decs = decode_bulk(axh, cands, rip)
+        usable = []
         for c, toks in zip(cands, decs):
             d = dec_dict(toks)
             if d is None or d["code"] not in dispatched:
                 continue
             if codes_filter and d["code"] not in codes_filter:
                 continue
-            k = count.get(d["code"], 0)
-            cap = per_code_cap or max(4, (3 * n) // 300)
-            if d["code"] in stubs:
-                cap = 2
-            # rare operand shapes get their own small quota so that they are not crowded out
-            shape = []
-            if d["base"] in REGIDX and REGIDX[d["base"]][1] == 32 or d["index"] in REGIDX and REGIDX[d["index"]][1] == 32 or d["base"] == "EIP":
-                shape.append("a32")
-            if d["seg"] in ("FS", "GS"):
-                shape.append("seg")
-            if any(d[x] in ("RSP", "ESP", "SP", "SPL") for x in ("r0", "r1", "base")):
-                shape.append("rsp")
-            if d["base"] in ("RBP", "R13", "R12") or d["index"] != "None":
-                shape.append("sib")
-            skey = (d["code"], tuple(shape))
-            sk = shape_count.get(skey, 0)
-            if k >= cap and not (shape and sk < max(2, cap // 8) and d["code"] not in stubs):
-                continue
-            count[d["code"]] = k + 1
-            shape_count[skey] = sk + 1
-            case = make_state(rng, c, d, rip)
-            pending.append(case)
-            if len(out) + len(pending) >= n:
-                break
+            usable.append((c, d))
+        # pass 1: every Code up to an equal share; pass 2: fill up to the cap
+        share = max(4, n // max(1, len(set(d["code"] for _, d in usable))))
+        for lim in (share, None):
+            rest = []
+            for c, d in usable:
+                if len(out) + len(pending) >= n:
+                    break
+                k = count.get(d["code"], 0)
+                cap = per_code_cap or max(4, (3 * n) // 300)
+                if d["code"] in stubs:
+                    cap = 2
+                if lim is not None:
+                    cap = min(cap, lim)
+                shape = []
+                if d["base"] in REGIDX and REGIDX[d["base"]][1] == 32 or d["index"] in REGIDX and REGIDX[d["index"]][1] == 32 or d["base"] == "EIP":
+                    shape.append("a32")
+                if d["seg"] in ("FS", "GS"):
+                    shape.append("seg")
+                if any(d[x] in ("RSP", "ESP", "SP", "SPL") for x in ("r0", "r1", "base")):
+                    shape.append("rsp")
+                if d["base"] in ("RBP", "R13", "R12") or d["index"] != "None":
+                    shape.append("sib")
+                skey = (d["code"], tuple(shape))
+                sk = shape_count.get(skey, 0)
+                if k >= cap and not (lim is None and shape and sk < max(2, cap // 8) and d["code"] not in stubs):
+                    rest.append((c, d))
+                    continue
+                count[d["code"]] = k + 1
+                shape_count[skey] = sk + 1
+                pending.append(make_state(rng, c, d, rip))
+            usable = rest
         # the displacement / moffs patching must not have changed what the bytes decode to
         # (an "opcode" byte that is itself a prefix shifts the fields): re-decode and drop such cases
         if pending:
